@@ -21,10 +21,12 @@ pub struct DocProfile {
     pub kind_change: bool,
     pub nested: bool,
     pub id_pool: usize,
+    /// adds a bulk array so that packs exceed the 32 KiB blocks of the compression wrappers
+    pub big: bool,
 }
 impl Default for DocProfile {
     fn default() -> Self {
-        DocProfile { hostile_strings: true, hostile_ids: true, kind_change: true, nested: true, id_pool: 10 }
+        DocProfile { hostile_strings: true, hostile_ids: true, kind_change: true, nested: true, id_pool: 10, big: false }
     }
 }
 
@@ -189,6 +191,19 @@ pub fn rand_doc(r: &mut Rng, p: &DocProfile) -> Value {
         if let Some(v) = rand_meta(r, p, &mut used) {
             m.insert(format!("meta{}", FLAT), v);
         }
+    }
+    if p.big {
+        let n = 120 + r.below(200);
+        let bulk: Vec<Value> = (0..n)
+            .map(|i| {
+                let mut t = String::new();
+                while t.len() < 150 + (i % 7) * 40 {
+                    t.push_str(&format!("{:x} \"}}{{ ", r.next()));
+                }
+                json!({"_id": format!("k{:03}", i), "t": t, "n": i})
+            })
+            .collect();
+        m.insert(format!("bulk{}", FLAT), Value::Array(bulk));
     }
     if p.nested && r.chance(15) {
         m.insert(format!("aux{}", FLAT), json!({"av": rand_scalar(r, p)}));
